@@ -354,6 +354,24 @@ Proof. unfold connects. rewrite orb_true_iff, !andb_true_iff, !N.eqb_eq. tauto. 
 Lemma connects_sym a b e : connects a b e = connects b a e.
 Proof. unfold connects. apply orb_comm. Qed.
 
+(* the call matches exactly the edges (source, target, kind), in this direction *)
+Lemma to_remove_spec k s t e : to_remove k s t e = true <-> e = (s, t, k).
+Proof.
+  unfold to_remove, stored_as, connects. destruct e as [[es et] ek].
+  cbn [edge_source edge_target edge_kind fst snd].
+  rewrite !andb_true_iff, orb_true_iff, !andb_true_iff, !N.eqb_eq. split.
+  - intros [[_ Hk] [Hs Ht]]. congruence.
+  - intros H. inversion H. tauto.
+Qed.
+
+Lemma to_remove_eqb k s t e :
+  to_remove k s t e = (edge_source e =? s) && (edge_target e =? t) && (edge_kind e =? k).
+Proof.
+  unfold to_remove, stored_as, connects.
+  destruct (edge_source e =? s), (edge_target e =? t), (edge_kind e =? k);
+    cbn [andb orb]; try reflexivity; rewrite ?andb_false_r; reflexivity.
+Qed.
+
 Lemma is_orphan_spec g n :
   is_orphan g n = true <-> forall e, In e (g_edges g) -> incident n e = false.
 Proof. unfold is_orphan. rewrite negb_true_iff. apply existsb_false. Qed.
@@ -400,7 +418,7 @@ Qed.
 
 (* the three steps of `remove_relation` when both entities are registered *)
 Definition cut (g : rgraph) (kind source target : N) : rgraph :=
-  {| g_edges := filter (fun e => negb (connects source target e && (edge_kind e =? kind))) (g_edges g);
+  {| g_edges := filter (fun e => negb (to_remove kind source target e)) (g_edges g);
      g_nodes := g_nodes g |}.
 
 Lemma remove_relation_unfold g k s t :
@@ -413,11 +431,11 @@ Proof.
   destruct (registered g t); reflexivity.
 Qed.
 
-(* exactly the edges between source and target with this kind disappear, in one call *)
+(* exactly the edges stored from source to target with this kind disappear, in one call *)
 Lemma remove_relation_edges g k s t :
   registered g s = true -> registered g t = true ->
   g_edges (remove_relation g k s t) =
-  filter (fun e => negb (connects s t e && (edge_kind e =? k))) (g_edges g).
+  filter (fun e => negb (to_remove k s t e)) (g_edges g).
 Proof.
   intros Hs Ht. rewrite remove_relation_unfold, Hs, Ht. cbn [andb].
   rewrite !drop_if_orphan_edges. reflexivity.
@@ -491,9 +509,9 @@ Proof.
     destruct (N.eq_dec n s) as [-> |Hns]; [apply Hs; reflexivity|].
     destruct (Hinc n Hn) as [e [He Hi]]. exists e. split; [|exact Hi].
     cbn [g1 cut g_edges]. apply filter_In. split; [exact He|].
-    apply negb_true_iff. apply andb_false_iff. left.
-    destruct (connects s t e) eqn:Hc; [|reflexivity]. exfalso.
-    apply connects_spec in Hc. apply incident_spec in Hi. intuition congruence.
+    destruct (to_remove k s t e) eqn:Hc; [|reflexivity]. exfalso.
+    apply to_remove_spec in Hc. subst e. apply incident_spec in Hi.
+    cbn [edge_source edge_target fst snd] in Hi. intuition congruence.
 Qed.
 
 Lemma wf_apply_op g o : wf g -> wf (apply_op g o).
@@ -693,9 +711,9 @@ Proof.
   - apply remove_relation_edges_incl.
 Qed.
 
-(* an edge of another kind, or between other entities, survives the call *)
+(* an edge of another kind, between other entities, or in the opposite direction survives the call *)
 Theorem remove_keeps_other_edges g k s t e :
-  In e (g_edges g) -> connects s t e && (edge_kind e =? k) = false ->
+  In e (g_edges g) -> to_remove k s t e = false ->
   In e (g_edges (remove_relation g k s t)).
 Proof.
   intros He Hc. rewrite remove_relation_unfold.
@@ -706,7 +724,7 @@ Qed.
 
 (* so two entities joined by an edge that the call does not match stay in one graph *)
 Theorem remove_keeps_connected_by_other_edge g k s t e :
-  wf g -> In e (g_edges g) -> connects s t e && (edge_kind e =? k) = false ->
+  wf g -> In e (g_edges g) -> to_remove k s t e = false ->
   connected (remove_relation g k s t) (edge_source e) (edge_target e).
 Proof.
   intros Hwf He Hc. pose proof (remove_keeps_other_edges g k s t e He Hc) as He'.
@@ -720,59 +738,50 @@ Proof. intros H. apply conn_in_nodes in H. destruct H as [[] _]. Qed.
 (* ------------------------------------------------------------------ *)
 (* graph against world                                                  *)
 
-(* Every relationship of the world has its edge in the graph, as long as the world never holds
-   two opposite relationships of one kind (a -> b and b -> a): `remove_relation` removes the
-   edges between the two entities in BOTH directions. *)
-Definition no_opposite (w : world) : Prop :=
-  forall s t k, s <> t -> In (s, t, k) w -> ~ In (t, s, k) w.
-
-(* the observers call `remove_relation` for a relationship that exists *)
-Definition legal (w : world) (o : op) : Prop :=
-  match o with OpRemove k s t => In (s, t, k) w | _ => True end.
-
-Fixpoint legal_from (w : world) (ops : list op) : Prop :=
-  match ops with
-  | [] => True
-  | o :: ops' => no_opposite w /\ legal w o /\ legal_from (world_apply w o) ops'
-  end.
-
-Lemma world_edges_step g w o :
-  (forall e, In e w -> In e (g_edges g)) ->
-  no_opposite w -> legal w o ->
-  forall e, In e (world_apply w o) -> In e (g_edges (apply_op g o)).
+(* The edges of the graph are exactly the relationships of the world since the last `clear`
+   (as a list, duplicates included): OnInsert -> add, OnReplace -> remove. *)
+Lemma apply_op_edges g o : wf g -> g_edges (apply_op g o) = world_apply (g_edges g) o.
 Proof.
-  intros Hsub Hno Hleg e. destruct o as [k s t|k s t|]; cbn [world_apply apply_op].
-  - rewrite add_relation_edges, !in_app_iff. intros [H|H]; [left; apply Hsub; exact H|right; exact H].
-  - intros He. apply filter_In in He. destruct He as [He Hne].
-    apply remove_keeps_other_edges; [apply Hsub; exact He|].
-    destruct (connects s t e && (edge_kind e =? k)) eqn:Hc; [|reflexivity]. exfalso.
-    apply andb_true_iff in Hc. destruct Hc as [Hc Hk]. apply N.eqb_eq in Hk.
-    apply connects_spec in Hc. destruct e as [[es et] ek].
-    cbn [edge_source edge_target edge_kind fst snd] in *. subst ek.
-    destruct Hc as [[-> ->]|[-> ->]].
-    + rewrite !N.eqb_refl in Hne. discriminate.
-    + destruct (N.eq_dec s t) as [-> |Hst]; [rewrite !N.eqb_refl in Hne; discriminate|].
-      exact (Hno s t k Hst Hleg He).
-  - intros [].
+  intros Hwf. destruct o as [k s t|k s t|]; cbn [apply_op world_apply].
+  - apply add_relation_edges.
+  - assert (Hext : forall l : list edge,
+              filter (fun e => negb (to_remove k s t e)) l =
+              filter (fun e => negb ((edge_source e =? s) && (edge_target e =? t) && (edge_kind e =? k))) l).
+    { intros l. apply filter_ext. intros e. rewrite to_remove_eqb. reflexivity. }
+    rewrite <- Hext.
+    destruct (registered g s) eqn:Hs; [destruct (registered g t) eqn:Ht|].
+    + apply remove_relation_edges; assumption.
+    + rewrite remove_relation_unregistered by (right; exact Ht).
+      symmetry. apply filter_all. intros e He.
+      destruct (to_remove k s t e) eqn:Hc; [|reflexivity]. exfalso.
+      apply to_remove_spec in Hc. subst e. destruct Hwf as [_ [Hends _]].
+      destruct (Hends _ He) as [_ H2]. cbn [edge_target fst snd] in H2.
+      apply registered_In in H2. congruence.
+    + rewrite remove_relation_unregistered by (left; exact Hs).
+      symmetry. apply filter_all. intros e He.
+      destruct (to_remove k s t e) eqn:Hc; [|reflexivity]. exfalso.
+      apply to_remove_spec in Hc. subst e. destruct Hwf as [_ [Hends _]].
+      destruct (Hends _ He) as [H1 _]. cbn [edge_source fst snd] in H1.
+      apply registered_In in H1. congruence.
+  - reflexivity.
 Qed.
 
-Lemma world_edges_fold ops g w :
-  (forall e, In e w -> In e (g_edges g)) -> legal_from w ops ->
-  forall e, In e (fold_left world_apply ops w) -> In e (g_edges (fold_left apply_op ops g)).
+Lemma fold_edges ops g :
+  wf g -> g_edges (fold_left apply_op ops g) = fold_left world_apply ops (g_edges g).
 Proof.
-  revert g w. induction ops as [|o ops IH]; intros g w Hsub Hleg; cbn [fold_left]; [exact Hsub|].
-  destruct Hleg as [Hno [Hl Hrest]]. apply IH; [|exact Hrest].
-  apply world_edges_step; assumption.
+  revert g. induction ops as [|o ops IH]; intros g Hwf; cbn [fold_left]; [reflexivity|].
+  rewrite IH by (apply wf_apply_op; exact Hwf). rewrite apply_op_edges by exact Hwf. reflexivity.
 Qed.
 
+Theorem run_ops_edges ops : g_edges (run_ops ops) = fold_left world_apply ops [].
+Proof. unfold run_ops. apply (fold_edges ops rgraph_empty). apply wf_empty. Qed.
+
+(* every relationship of the world joins two entities of one graph: no side condition *)
 Theorem world_related_same_graph ops s t k :
-  legal_from [] ops -> In (s, t, k) (fold_left world_apply ops []) ->
-  same_graph (run_ops ops) s t = true.
+  In (s, t, k) (fold_left world_apply ops []) -> same_graph (run_ops ops) s t = true.
 Proof.
-  intros Hleg Hin. apply same_graph_iff_connected.
-  assert (He : In (s, t, k) (g_edges (run_ops ops))).
-  { unfold run_ops. apply (world_edges_fold ops rgraph_empty []); [intros e []|exact Hleg|exact Hin]. }
-  pose proof (wf_run_ops ops) as [_ [Hends _]]. destruct (Hends _ He) as [H1 H2].
+  intros Hin. apply same_graph_iff_connected. rewrite <- run_ops_edges in Hin.
+  pose proof (wf_run_ops ops) as [_ [Hends _]]. destruct (Hends _ Hin) as [H1 H2].
   apply (conn_edge _ _ (s, t, k)); assumption.
 Qed.
 
